@@ -122,8 +122,8 @@ ExportTerms == (Export /\ q = <<1, 1>>) =>
                       coverage |-> Coverage(V("R"))]>>)
 
 \* law grid: ordered pairs (lo, hi) of percent values for monotonicity, sample sizes, and the large-n limit
-Percents == {50, 75, 90, 95, 99}
+Percents == {10, 25, 50, 75, 90, 95, 99}
 Pairs == {<<x, y>> \in Percents \X Percents : x < y}
-Sizes == {2, 3, 5, 10, 30, 100, 1000}
+Sizes == {2, 3, 5, 10, 30, 100, 1000, 3000000}
 ExportLaws == (Export /\ q = <<1, 1>>) => PrintT(<<"LAWS", Pairs, Sizes, Percents>>)
 =============================================================================
